@@ -33,7 +33,7 @@ VALS = {"int": 1, "str": "s", "float": 2.5, "bytes": b"b", "list": [], "object":
 
 
 def plan(tier):
-    n = 2000 if tier == "quick" else 40000
+    n = 8000 if tier == "quick" else 80000
     return {"cases": n, "params": {}, "timeout_s": 1200 if tier == "quick" else 7200,
             "min": {"probes": 30_000, "ancestor_modified_after_use": 100, "refusals_justified": 200,
                     "propagated_through_linkback": 100}}
